@@ -1,11 +1,32 @@
 import RpylibModel.Basic.Proto
 import RpylibModel.Model.Integrals
+import RpylibModel.Model.IntegralsSpecial
 open Rpylib Rpylib.Integrals
 
 def showTerms (t : Terms) : String := showListList showRat (t.map (fun p => [p.1, p.2]))
 
 def showOptTerms : Option Terms → String
   | some t => showTerms t
+  | none => "err"
+
+def joinWith (sep : String) (l : List String) : String := sep.intercalate l
+
+/-- `c,u;c,u` with extended points -/
+def showExtPairs (l : List (Rat × ExtRat)) : String :=
+  "[" ++ joinWith ";" (l.map (fun p => showRat p.1 ++ "," ++ showExtRat p.2)) ++ "]"
+
+def showMerton : Option MertonTerms → String
+  | some t => showExtPairs t.erfT ++ " " ++ showTerms t.gaussT
+  | none => "err"
+
+def showAtom : CgmyAtom → String
+  | .tailMass al u h => "tailMass," ++ showRat al ++ "," ++ showRat u ++ "," ++ showRat h
+  | .tailX al u h => "tailX," ++ showRat al ++ "," ++ showRat u ++ "," ++ showRat h
+  | .lowGam s r h => "lowGam," ++ showRat s ++ "," ++ showRat r ++ "," ++ showExtRat h
+  | .pow s h => "pow," ++ showRat s ++ "," ++ showRat h
+
+def showCgmy : Option CgmyTerms → String
+  | some t => "[" ++ joinWith ";" (t.map (fun p => showRat p.1 ++ "," ++ showAtom p.2)) ++ "]"
   | none => "err"
 
 /-- requests (end points `a`, `b`, `l`, `r` are rationals or `inf` / `-inf`):
@@ -18,6 +39,9 @@ def showOptTerms : Option Terms → String
   vgxn <c> <lp> <lm> <n> <a> <b>                -> terms or `err`                 (VG integrate_against_xn, n ≥ 1)
   hem <k> <lam> <p> <eta1> <eta2> <a> <b>       -> terms or `err`                 (HEM integrate / _x / _xx)
   split <knots> <tp> <tn> <a> <b>               -> rational or `err`              (split-at-zero pattern on a table)
+  merton <k> <lam> <mu> <sigma> <a> <b>         -> `[c,u;c,u] [c,u;c,u]` or `err`  (erf terms at extended points, Gaussian terms)
+  vgmass <c> <lp> <lm> <a> <b>                  -> terms `[c,z;c,z]` (Σ c·E1(z)) or `err`
+  cgmymass | cgmyx | cgmyxx <c> <g> <m> <y> <a> <b>  -> `[c,atom,args;…]` or `err`   (atoms: tailMass,α,u,h  tailX,α,u,h  lowGam,s,rate,h  pow,s,h)
 -/
 def step (t : List String) : String :=
   match t with
@@ -65,6 +89,22 @@ def step (t : List String) : String :=
       | some v => showRat v
       | none => "err"
     | _, _, _, _, _ => "bad-op"
+  | ["merton", k, lam, mu, sg, a, b] =>
+    match parseNat? k, parseRat? lam, parseRat? mu, parseRat? sg, parseExtRat? a, parseExtRat? b with
+    | some k, some lam, some mu, some sg, some a, some b => showMerton (mertonTerms k lam mu sg a b)
+    | _, _, _, _, _, _ => "bad-op"
+  | ["vgmass", c, lp, lm, a, b] =>
+    match parseRat? c, parseRat? lp, parseRat? lm, parseExtRat? a, parseExtRat? b with
+    | some c, some lp, some lm, some a, some b => showOptTerms (vgMassTerms c lp lm a b)
+    | _, _, _, _, _ => "bad-op"
+  | [op, c, g, m, y, a, b] =>
+    match parseRat? c, parseRat? g, parseRat? m, parseRat? y, parseExtRat? a, parseExtRat? b with
+    | some c, some g, some m, some y, some a, some b =>
+      if op = "cgmymass" then showCgmy (cgmyMassTerms c g m y a b)
+      else if op = "cgmyx" then showCgmy (cgmyXTerms c g m y a b)
+      else if op = "cgmyxx" then showCgmy (cgmyXXTerms c g m y a b)
+      else "bad-op"
+    | _, _, _, _, _, _ => "bad-op"
   | _ => "bad-op"
 
 def main : IO Unit := runStateless step
